@@ -9,8 +9,14 @@ export VERIF_REPO=$REPO
 for d in seeded/*/; do
   name=$(basename "$d"); id=${name%%-*}
   if ! git -C "$REPO" diff --quiet; then echo "$name: repository copy is not clean"; exit 2; fi
-  if ! git -C "$REPO" apply --check "$PWD/$d/patch.diff" 2>/dev/null; then echo "RESULT $name: DOES-NOT-APPLY (made against an earlier commit, see meta.json)"; continue; fi
-  git -C "$REPO" apply "$PWD/$d/patch.diff"
+  P="$PWD/$d/patch.diff"
+  if ! git -C "$REPO" apply --check "$P" 2>/dev/null; then
+    # the same slip re-expressed on the current code, where a later repair rewrote the lines
+    P="$PWD/$d/patch-on-head.diff"
+    if [ ! -f "$P" ] || ! git -C "$REPO" apply --check "$P" 2>/dev/null; then echo "RESULT $name: DOES-NOT-APPLY (made against an earlier commit, see meta.json)"; continue; fi
+    name="$name (patch-on-head)"
+  fi
+  git -C "$REPO" apply "$P"
   cp evidence/$id.json /tmp/evidence.$id.bat 2>/dev/null
   out=$(bin/check $id quick 2>&1); code=$?
   cp /tmp/evidence.$id.bat evidence/$id.json 2>/dev/null
